@@ -15,6 +15,10 @@ NOT_APPLICABLE = {
 
 # property -> (engine, category, technique, text, note, design_ref)
 CLAIMED = {
+    'C06': ('threads', 'other', 'whole-program call graph + global-write effect analysis from every pthread entry (thread escape), must-precede dataflow for seeding, structural create/join pairing, polynomial seed-schedule check',
+            'Decides the race/seeding/join clauses only: no reachable unsynchronised write to shared mutable state from any of the 15 thread entries; RNG state touched only by the RNG API; every worker seeds (from its argument) before it draws; all 13 dispatch regions join exactly what they create before freeing/reading; the bootstrap seed is schedule-invariant. Bit-identity of floating-point results and rounding-level equality across thread counts are NOT decided.',
+            'Trusted: clang AST; structured control flow (no goto/switch, re-checked); pthread_create/join as the only thread primitives; mutex regions recognised lexically.',
+            'DESIGN.md 2/E2, 3/C06'),
     'C20': ('abi', 'proof', 'compile-fail witnesses generated from the Python ast (redeclaration compatibility, _Static_assert on sizeof/offsetof/types), clang -fsyntax-only as oracle',
             'Decides the whole property for the current tree: every ctypes structure and every declared/called foreign function is compared with the C declarations; obligations are enumerated and each is discharged by the C compiler or an exact count comparison. Exhaustive over the finite set of declarations.',
             'Trusted: clang C type-compatibility rules, CPython ast, LP64 layout table. Python expressions other than literal ctypes constructors make the check ANALYSIS-BROKEN (exit 2), not pass.',
